@@ -28,7 +28,7 @@ def run(ctx):
     # the endpoint gate: the atom of the dispatch edges that is not one of the SETUP-packet conditions
     cand = set()
     for e in fsm.out_edges(W):
-        cand |= {a for a, p in q.atoms(e) if p and a not in (RCV, LEN, DIR)}
+        cand |= {a for a, p in q.atoms(e) if p and a not in (RCV, LEN, '0 == ' + LEN, DIR)}
     ctx.need(len(cand) == 1, 'the endpoint gate of the setup-wait state (candidates %s)' % sorted(cand))
     EP = cand.pop()
     want_ep = '0 == ' + T + 'endpoint'
